@@ -976,7 +976,9 @@ UNIT = Unit(
         final(self).wf(),                                                                                       // @wf_on_every_exit
         !(final(self).execution_state is Suspended) ==> Self::stack_equiv(final(self).call_stack@, old(self).call_stack@),   // @callers_frames_as_before
         !(final(self).execution_state is Suspended) ==> final(self).register_base == old(self).register_base,   // @register_base_restored
-        // (registers above the frame's own are transient inside an instruction; nothing is claimed about them)
+        // once it is over, the value stack is no taller than it was (the clause had been dropped as too strong; finding F41
+        // showed what it is for)
+        !(final(self).execution_state is Suspended) ==> final(self).registers@.len() <= old(self).registers@.len(),   // @no_register_left_behind
 """),
         Fn(F, "impl KotoVm :: fn run_overridden_comparison_op", props=("C07", "C04", "C17"), spec=r"""
     requires
@@ -990,7 +992,9 @@ UNIT = Unit(
         final(self).wf(),                                                                                       // @wf_on_every_exit
         !(final(self).execution_state is Suspended) ==> Self::stack_equiv(final(self).call_stack@, old(self).call_stack@),   // @callers_frames_as_before
         !(final(self).execution_state is Suspended) ==> final(self).register_base == old(self).register_base,   // @register_base_restored
-        // (registers above the frame's own are transient inside an instruction; nothing is claimed about them)
+        // once it is over, the value stack is no taller than it was (the clause had been dropped as too strong; finding F41
+        // showed what it is for)
+        !(final(self).execution_state is Suspended) ==> final(self).registers@.len() <= old(self).registers@.len(),   // @no_register_left_behind
 """),
         Fn(F, "impl KotoVm :: fn run_binary_op", props=("C07", "C06"), spec=r"""
     requires
